@@ -44,6 +44,20 @@ pub fn solve_to_solution(core: Arc<CoreProblem>, cfg: &Value) -> Result<(sol::So
     Ok((solution, text))
 }
 
+/// Open known finding shared by all solver-level engines: on matrices that violate the triangle inequality
+/// any removal of a stop (ruin, local exchange, obsolete reload/break removal at finalisation ...) can lengthen
+/// the remaining legs and nothing is re-validated, so time and limit rules cannot hold there.
+pub fn known_nonmetric(property: &str, rendered: &Rendered, rule: &str, stats: &Stats) -> bool {
+    const SIG: &str = "feasibility@removal-on-non-metric-data";
+    let metric_dependent = matches!(rule, "time-window" | "time-window-start" | "shift-end" | "max-duration" | "max-distance");
+    if metric_dependent && rendered.info.features.iter().any(|x| x == "non_metric") && known_open(property, SIG) {
+        stats.known_hit(SIG);
+        stats.class(&format!("excluded_known.detail.{rule}@non-metric"));
+        return true;
+    }
+    false
+}
+
 /// Tolerance in output units: 1 for integral data, 2 when a fractional scale makes times fractional.
 pub fn tolerance(problem: &api::Problem) -> i64 {
     let fractional = problem.fleet.vehicles.iter().any(|v| v.profile.scale.is_some_and(|s| (s * 2.).fract() != 0.));
@@ -62,6 +76,9 @@ pub fn findings_failure(property: &str, which: &RProp, verdict: &Verdict, render
         .into_iter()
         .filter(|x| {
             let sig = format!("{id}:{}", x.rule);
+            if id == "feasibility" && known_nonmetric(property, rendered, &x.rule, stats) {
+                return false;
+            }
             if known_open(property, &sig) {
                 stats.known_hit(&sig);
                 false
